@@ -31,12 +31,21 @@ class Fresh:
         '''[(If stmt, snapshot name, epoch path, equal_branch_is_body)] in f.'''
         out = []
         for s in f.own_nodes():
-            if isinstance(s, ast.If) and isinstance(s.test, ast.Compare) and len(s.test.ops) == 1 \
-                    and isinstance(s.test.ops[0], (ast.Eq, ast.NotEq)):
-                l, r = s.test.left, s.test.comparators[0]
-                for a, b in ((l, r), (r, l)):
-                    if isinstance(a, ast.Name) and self.ctx.res.canon(b, f) in self.epochs:
-                        out.append((s, a.id, self.ctx.res.canon(b, f), isinstance(s.test.ops[0], ast.Eq)))
+            if not isinstance(s, ast.If):
+                continue
+            # the comparison may be one conjunct of the test (`if snap == self.epoch and <more>`): the body is then still
+            # entered only on equality; a negated form must be the whole test
+            tests = [(s.test, True)]
+            if isinstance(s.test, ast.BoolOp) and isinstance(s.test.op, ast.And):
+                tests = [(v, False) for v in s.test.values]
+            for t, whole in tests:
+                if isinstance(t, ast.Compare) and len(t.ops) == 1 and isinstance(t.ops[0], (ast.Eq, ast.NotEq)):
+                    if not whole and not isinstance(t.ops[0], ast.Eq):
+                        continue
+                    l, r = t.left, t.comparators[0]
+                    for a, b in ((l, r), (r, l)):
+                        if isinstance(a, ast.Name) and self.ctx.res.canon(b, f) in self.epochs:
+                            out.append((s, a.id, self.ctx.res.canon(b, f), isinstance(t.ops[0], ast.Eq)))
         return out
 
     def snapshot_ok(self, f, cfg, snap, epoch, read_node):
